@@ -26,10 +26,10 @@ type T struct {
 	Fields    []T  // Struct
 }
 
-func fixed(n int) T          { return T{K: Fixed, N: n} }
-func slice(e T, max int) T   { return T{K: Slice, Elem: &e, MaxLen: max} }
-func structOf(f ...T) T      { return T{K: Struct, Fields: f} }
-func omitEmptyBytes() T      { e := fixed(1); return T{K: Slice, Elem: &e, OmitEmpty: true} }
+func fixed(n int) T        { return T{K: Fixed, N: n} }
+func slice(e T, max int) T { return T{K: Slice, Elem: &e, MaxLen: max} }
+func structOf(f ...T) T    { return T{K: Struct, Fields: f} }
+func omitEmptyBytes() T    { e := fixed(1); return T{K: Slice, Elem: &e, OmitEmpty: true} }
 
 var (
 	hash32 = fixed(32)
